@@ -203,7 +203,8 @@ class KnownFindings:
             if not re.search(e.get("label", ".*"), label):
                 continue
             try:
-                if not eval(e.get("case", "True"), {"re": re}, {"case": case}):
+                from vf import kfhelpers
+                if not eval(e.get("case", "True"), {"re": re, "helpers": kfhelpers}, {"case": case}):
                     continue
             except Exception:
                 continue
@@ -281,6 +282,14 @@ def explore_case(prop, harness_make, case, kf, *, max_paths=4096, witness_every=
                                      "obligations": [lab for lab, _, _ in ctx.checks[:8]]}
             except Inconclusive as e:
                 res["inconclusive"].append(str(e)[:200])
+            except OutOfBound as e:
+                res["out_of_bound"][str(e)] = res["out_of_bound"].get(str(e), 0) + 1
+            except HarnessError:
+                raise
+            except Exception as e:  # noqa: BLE001
+                tb = traceback.extract_tb(e.__traceback__)
+                where = " <- ".join(f"{f.filename.split('/')[-1]}:{f.lineno}" for f in tb[-3:])
+                res["errors"].append(f"post-run {type(e).__name__}: {str(e)[:160]} @ {where}")
             finally:
                 ENGINE.symbolic = False
         if not ENGINE.backtrack():
